@@ -2,7 +2,9 @@ package gbn
 
 import (
 	"context"
+	"fmt"
 	"io"
+	"math"
 	"time"
 )
 
@@ -139,6 +141,15 @@ handshakeLoop:
 
 		g.log.Debugf("Received client SYN. Sending back.")
 		n = msg.(*PacketSYN).N
+
+		// A window of math.MaxUint8 cannot be represented: the sequence
+		// space n+1 would wrap around to zero. NewClientConn refuses to
+		// propose it, so a SYN carrying it is stale or hostile.
+		if n == math.MaxUint8 {
+			return fmt.Errorf("received SYN with invalid window "+
+				"size n=%d, n must be smaller than %d", n,
+				math.MaxUint8)
+		}
 
 		// Send SYN back
 		syn := &PacketSYN{N: n}
